@@ -33,7 +33,7 @@ BREAKERS = [
      "desc": "flushed commands stay in the table (leak into the next episode)", "functions": [S + "_processPendingCommands"]},
     {"module": "ExcludeRegionState", "old": "            if (not (gcode in self.pendingCommands)):\n                self.pendingCommands[gcode] = cmd",
      "new": "            self.pendingCommands[gcode] = cmd", "desc": "'first' mode keeps the last instance", "functions": [S + "_processExtendedGcodeEntry"]},
-    {"module": "ExcludeRegionState", "old": "                pendingArgs[label] = value", "new": "                if (label not in ('S',)):\n                    pendingArgs[label] = value",
+    {"module": "ExcludeRegionState", "old": "                if (label):\n                    pendingArgs[label] = value", "new": "                if (label and label not in ('S',)):\n                    pendingArgs[label] = value",
      "desc": "merge drops S words", "functions": [S + "_processExtendedGcodeEntry"]},
     {"module": "ExcludeRegionState", "old": "        if (gcode and self.excluding):\n            entry = self.extendedExcludeGcodes.get(gcode)",
      "new": "        if (gcode):\n            entry = self.extendedExcludeGcodes.get(gcode)", "desc": "configured codes withheld outside episodes too",
